@@ -554,7 +554,16 @@ func (st *c14State) phasePolicies() {
 				for k, i := range jb.ix {
 					pol[k] = stmts[i-1]
 				}
-				if err := st.httpPolicy(bucket, pol, jb.shape, queries, jb.want, "quantified"); err != nil {
+				// a request that gets no reply (loaded machine) is not an observation: the job
+				// is repeated; only a job that fails three times makes the run inconclusive
+				var err error
+				for try := 0; try < 3; try++ {
+					if err = st.httpPolicy(bucket, pol, jb.shape, queries, jb.want, "quantified"); err == nil {
+						break
+					}
+					time.Sleep(time.Duration(try+1) * time.Second)
+				}
+				if err != nil {
 					fail.Do(func() { c.Inconclusive("policy end-to-end: %v", err) })
 				}
 			}
